@@ -178,7 +178,7 @@ prop('C10', COMMON +
      'overwriting errors[m]), DIRTY-COVERS (the dirty set handed to affected_set is built from every request component '
      'under which parsed_modules is mutated; every module announced to recheck as re-parsed is parsed on every path). '
      'Does not decide that the affected set is large enough (graph semantics).',
-     [incremental.run_sigkey, incremental.run_order, incremental.run_errors, incremental.run_dirty, gc_rules.run_gc_roots],
+     [incremental.run_sigkey, incremental.run_order, incremental.run_errors, incremental.run_dirty, incremental.run_sig_all, gc_rules.run_gc_roots],
      ['affected_set (forward closure of the reverse closure of the dirty set) contains every module whose diagnostics can change'])
 
 prop('C03', COMMON +
